@@ -58,8 +58,21 @@ claim("C02",
       "streams) replayed through the unpatched classes.",
       TRUST, "symbolic execution of vmdk.py + z3 equivalence against a specification oracle", "4.2")
 
+claim("C07",
+      "One inductive step over chain depth per reader, each solver-decided: with the parent an arbitrary byte array, the "
+      "real VHDX (NOT_PRESENT / PARTIALLY_PRESENT with sector bitmap), VMDK sparse delta, HDS, VDI and QCOW2 (backing file of "
+      "symbolic length) read paths return overlay(child, parent) with the parent addressed at the absolute guest offset; "
+      "_iter_partial_runs is checked as a unit on symbolic bitmaps. Parent *resolution* is not yet encoded (see notes).",
+      TRUST + "; the induction over chain depth is a written argument", "symbolic execution of the layered read paths + z3 "
+      "equivalence against overlay oracles", "4.7")
+claim("C12",
+      "Every constructor covered runs on a header whose validated fields are free full-width symbolic variables; on each "
+      "path that returns normally z3 shows the header satisfies the accept predicate of the property (returns => "
+      "supported); counterexamples are replayed as real header bytes through the real constructor.",
+      TRUST, "symbolic execution of the constructors + z3 implication 'accepted => supported'", "4.12")
+
 PENDING = "check not built yet in this round (planned: see DESIGN.md section 4)"
-for _p in ( "C07", "C08", "C09", "C10", "C11", "C12", "C13", "C14", "C15", "C17", "C20"):
+for _p in ( "C08", "C09", "C10", "C11", "C13", "C14", "C15", "C17", "C20"):
     NOT_APPLICABLE[_p] = PENDING
 NOT_APPLICABLE["C16"] = ("the property's content (cstruct writers, AES-GCM, PBKDF2) sits behind C boundaries that would have "
                          "to be stubbed; nothing of the repository's own arithmetic would remain to be decided (DESIGN 5)")
